@@ -1926,6 +1926,9 @@ int xmp_start_player(xmp_context opaque, int rate, int format)
 		p->channel_vol[i] = 100;
 	}
 
+	/* Forget events injected during a previous run that were never played */
+	memset(p->inject_event, 0, sizeof(p->inject_event));
+
 	/* Skip invalid patterns at start (the seventh laboratory.it) */
 	while (p->ord < mod->len && mod->xxo[p->ord] >= mod->pat) {
 		p->ord++;
